@@ -2,14 +2,21 @@ package main
 
 // Funcs.lean: the pure integer functions of the code, TRANSLATED statement by statement into Lean
 // definitions over fixed-width bit vectors (Go's uintN/intN arithmetic is arithmetic modulo 2^N,
-// shifts by a count >= N give 0, conversions truncate or extend). The theorems of Props/G01.lean
-// state that these generated definitions compute what the hand-written model computes; they are
-// re-checked on every run against whatever the source says now.
+// shifts by a count >= N give 0, conversions truncate or extend), and the conditions of selected
+// guards. The theorems of Props/G01*.lean state that these generated definitions compute what the
+// hand-written model computes; they are re-checked on every run against what the source says now.
 //
-// Supported shape: parameters and receiver fields of integer type; a body made of `x := e`, `x = e`,
-// `x op= e`, `if c { ...return } [else { ...return }]` and `return e`; expressions over integer
-// literals and constants, + - * & | ^ &^ << >>, comparisons, && || !, integer conversions and calls
-// of other translated functions. Anything else makes the function "untranslated": no definition is
+// Functions: parameters (positional, in declaration order) and receiver fields (named `f_<path>`,
+// sorted) of integer type; a body made of `x := e`, `x = e`, `x op= e`,
+// `if c { ...return } [else { ...return }]` and `return e`.
+// Guards: the condition of the one `if` statement whose body contains an anchor text. The run of pure
+// `x := e` statements directly in front of that `if` is inlined; every other variable is a parameter
+// (`f_<field path without its root variable>`, `p<i>` for the i-th parameter of the enclosing
+// function, `len_p<i>`, `v_<local>`), sorted by name - so renaming a receiver or a parameter, naming
+// a sub-expression or swapping operands does not change the generated signature.
+// Expressions: integer literals and constants, + - * & | ^ &^ << >>, comparisons, && || !, integer
+// conversions, calls of other translated functions, and calls of parameterless methods whose body
+// is a single `return e` (inlined). Anything else makes the item "untranslated": no definition is
 // emitted, `<name>_translated` is `false`, and the obligations that mention it fail.
 
 import (
@@ -18,6 +25,7 @@ import (
 	"go/constant"
 	"go/token"
 	"go/types"
+	"sort"
 	"strings"
 )
 
@@ -36,14 +44,23 @@ type untranslatable struct{ why string }
 
 func bail(format string, a ...interface{}) { panic(untranslatable{fmt.Sprintf(format, a...)}) }
 
+type pathT struct {
+	root   types.Object
+	fields []string
+}
+
 type fnTr struct {
-	p      *pkgInfo
-	recv   string   // receiver identifier
-	params []string // lean binders in order
-	seen   map[string]bool
-	known  map[string]bool // translated function names
-	free   bool            // guard mode: every variable and field path is a parameter
-	bound  map[string]bool
+	p       *pkgInfo
+	fd      *ast.FuncDecl
+	recvObj types.Object
+	guard   bool                    // guard mode: every variable / field path is a parameter
+	own     []string                // positional binders (function mode)
+	named   map[string]string       // named binders: name -> Lean type
+	owner   map[string]types.Object // field-path name -> root object (ambiguity check)
+	known   map[string]bool         // translated function names
+	inline  map[types.Object]ast.Expr
+	subst   map[types.Object]pathT // receiver of an inlined method -> path at the call site
+	depth   int
 }
 
 func intWidth(t types.Type) (int, bool) {
@@ -71,6 +88,11 @@ func intWidth(t types.Type) (int, bool) {
 	}
 	bail("unsupported basic type %s", t)
 	return 0, false
+}
+
+func isBool(t types.Type) bool {
+	b, ok := t.Underlying().(*types.Basic)
+	return ok && b.Info()&types.IsBoolean != 0
 }
 
 var leanKeywords = map[string]bool{"at": true, "end": true, "from": true, "fun": true, "do": true, "then": true, "else": true,
@@ -103,6 +125,136 @@ func lit(v constant.Value, w int) string {
 	return fmt.Sprintf("(%s#%d)", s, w)
 }
 
+func (t *fnTr) leanType(ty types.Type) string {
+	if isBool(ty) {
+		return "Bool"
+	}
+	w, _ := intWidth(ty)
+	return fmt.Sprintf("BitVec %d", w)
+}
+
+func (t *fnTr) param(name, typ string) {
+	if old, ok := t.named[name]; ok && old != typ {
+		bail("parameter %s used at two types", name)
+	}
+	t.named[name] = typ
+}
+
+func (t *fnTr) paramIndex(obj types.Object) int {
+	i := 0
+	for _, fl := range t.fd.Type.Params.List {
+		for _, n := range fl.Names {
+			if t.p.info.Defs[n] == obj {
+				return i
+			}
+			i++
+		}
+	}
+	return -1
+}
+
+// path resolves a selector chain of struct fields down to its root variable.
+func (t *fnTr) path(x *ast.SelectorExpr) (pathT, bool) {
+	var fields []string
+	var e ast.Expr = x
+	for {
+		switch y := e.(type) {
+		case *ast.ParenExpr:
+			e = y.X
+			continue
+		case *ast.SelectorExpr:
+			if sel := t.p.info.Selections[y]; sel == nil || sel.Kind() != types.FieldVal {
+				return pathT{}, false
+			}
+			fields = append([]string{y.Sel.Name}, fields...)
+			e = y.X
+			continue
+		case *ast.Ident:
+			obj, ok := t.p.info.Uses[y].(*types.Var)
+			if !ok {
+				return pathT{}, false
+			}
+			if sub, ok := t.subst[obj]; ok {
+				return pathT{sub.root, append(append([]string{}, sub.fields...), fields...)}, true
+			}
+			return pathT{obj, fields}, true
+		}
+		return pathT{}, false
+	}
+}
+
+func (t *fnTr) fieldParam(x *ast.SelectorExpr) (string, bool) {
+	pt, ok := t.path(x)
+	if !ok {
+		return "", false
+	}
+	if !t.guard && pt.root != t.recvObj {
+		return "", false
+	}
+	name := "f_" + strings.Join(pt.fields, "_")
+	if o, seen := t.owner[name]; seen && o != pt.root {
+		bail("field path %s reached from two different variables", name)
+	}
+	t.owner[name] = pt.root
+	t.param(name, t.leanType(t.typeOf(x)))
+	return name, true
+}
+
+// variable names a plain identifier that is not let-bound: inlined definition, or a parameter.
+func (t *fnTr) variable(x *ast.Ident, asCond bool) (string, bool) {
+	obj, ok := t.p.info.Uses[x].(*types.Var)
+	if !ok {
+		return "", false
+	}
+	if def, ok := t.inline[obj]; ok {
+		if s, ok := t.tryInline(def, asCond); ok {
+			return s, true
+		}
+		// the definition is not translatable (a call, a slice ...): the variable is a parameter
+		delete(t.inline, obj)
+	}
+	if !t.guard {
+		// function mode: declared parameters and let-bound locals keep their names
+		t.leanType(obj.Type())
+		return leanIdent(x.Name), true
+	}
+	name := "v_" + x.Name
+	if i := t.paramIndex(obj); i >= 0 {
+		name = fmt.Sprintf("p%d", i)
+	}
+	t.param(name, t.leanType(obj.Type()))
+	return name, true
+}
+
+// tryInline translates the defining expression of a local; on failure nothing is kept.
+func (t *fnTr) tryInline(def ast.Expr, asCond bool) (out string, ok bool) {
+	if t.depth > 8 {
+		return "", false
+	}
+	savedNamed, savedOwner := map[string]string{}, map[string]types.Object{}
+	for k, v := range t.named {
+		savedNamed[k] = v
+	}
+	for k, v := range t.owner {
+		savedOwner[k] = v
+	}
+	t.depth++
+	defer func() {
+		t.depth--
+		if e := recover(); e != nil {
+			if _, is := e.(untranslatable); !is {
+				panic(e)
+			}
+			t.named, t.owner = savedNamed, savedOwner
+			out, ok = "", false
+		}
+	}()
+	if asCond {
+		return t.cond(def), true
+	}
+	return t.expr(def), true
+}
+
 func (t *fnTr) expr(e ast.Expr) string {
 	tv := t.p.info.Types[e]
 	if tv.Value != nil && tv.Type != nil {
@@ -118,18 +270,14 @@ func (t *fnTr) expr(e ast.Expr) string {
 	case *ast.ParenExpr:
 		return t.expr(x.X)
 	case *ast.Ident:
-		if _, ok := t.p.info.Uses[x].(*types.Var); ok {
-			w, _ := intWidth(t.typeOf(x))
-			if t.free && !t.bound[x.Name] {
-				t.param(leanIdent(x.Name), fmt.Sprintf("BitVec %d", w))
-			}
-			return leanIdent(x.Name)
+		intWidth(t.typeOf(x))
+		if s, ok := t.variable(x, false); ok {
+			return s
 		}
 		bail("identifier %s", x.Name)
 	case *ast.SelectorExpr:
-		if name, ok := t.path(x); ok {
-			w, _ := intWidth(t.typeOf(x))
-			t.param(name, fmt.Sprintf("BitVec %d", w))
+		intWidth(t.typeOf(x))
+		if name, ok := t.fieldParam(x); ok {
 			return name
 		}
 		bail("selector %s", t.p.src(x))
@@ -185,21 +333,32 @@ func (t *fnTr) expr(e ast.Expr) string {
 			}
 			return fmt.Sprintf("(BitVec.setWidth %d %s)", w2, a)
 		}
-		if id, ok := x.Fun.(*ast.Ident); ok && id.Name == "len" && len(x.Args) == 1 && t.free {
+		if id, ok := x.Fun.(*ast.Ident); ok && id.Name == "len" && len(x.Args) == 1 && t.guard {
 			if _, isB := t.p.info.Uses[id].(*types.Builtin); isB {
 				if a, ok := x.Args[0].(*ast.Ident); ok {
-					name := "len_" + a.Name
-					t.param(name, "BitVec 64")
-					return name
+					if obj, ok := t.p.info.Uses[a].(*types.Var); ok {
+						name := "len_v_" + a.Name
+						if i := t.paramIndex(obj); i >= 0 {
+							name = fmt.Sprintf("len_p%d", i)
+						}
+						t.param(name, "BitVec 64")
+						return name
+					}
 				}
 			}
 		}
 		if id, ok := x.Fun.(*ast.Ident); ok && t.known[id.Name] {
-			var args []string
-			for _, a := range x.Args {
-				args = append(args, t.expr(a))
+			if _, isFn := t.p.info.Uses[id].(*types.Func); isFn {
+				var args []string
+				for _, a := range x.Args {
+					args = append(args, t.expr(a))
+				}
+				return "(" + id.Name + " " + strings.Join(args, " ") + ")"
 			}
-			return "(" + id.Name + " " + strings.Join(args, " ") + ")"
+		}
+		if body, done := t.enterMethod(x); body != nil {
+			defer done()
+			return t.expr(body)
 		}
 		bail("call %s", t.p.src(x))
 	}
@@ -207,52 +366,97 @@ func (t *fnTr) expr(e ast.Expr) string {
 	return ""
 }
 
-// path names a selector chain rooted at the receiver (function mode) or at any variable (guard mode).
-func (t *fnTr) path(x *ast.SelectorExpr) (string, bool) {
-	var parts []string
-	var e ast.Expr = x
-	for {
-		switch y := e.(type) {
-		case *ast.SelectorExpr:
-			if sel := t.p.info.Selections[y]; sel == nil || sel.Kind() != types.FieldVal {
-				return "", false
-			}
-			parts = append([]string{y.Sel.Name}, parts...)
-			e = y.X
-			continue
-		case *ast.Ident:
-			if _, ok := t.p.info.Uses[y].(*types.Var); !ok {
-				return "", false
-			}
-			if !t.free && (t.recv == "" || y.Name != t.recv) {
-				return "", false
-			}
-			parts = append([]string{y.Name}, parts...)
-			return strings.Join(parts, "_"), true
-		}
-		return "", false
+// enterMethod: a call `path.m()` of a parameterless method of this package whose body is a single
+// `return e` is inlined; the method's receiver stands for `path`.
+func (t *fnTr) enterMethod(x *ast.CallExpr) (ast.Expr, func()) {
+	sel, ok := x.Fun.(*ast.SelectorExpr)
+	if !ok || len(x.Args) != 0 {
+		return nil, nil
 	}
-}
-
-func (t *fnTr) param(name, typ string) {
-	if !t.seen[name] {
-		t.seen[name] = true
-		t.params = append(t.params, fmt.Sprintf("(%s : %s)", name, typ))
+	s := t.p.info.Selections[sel]
+	if s == nil || s.Kind() != types.MethodVal {
+		return nil, nil
+	}
+	fn, ok := s.Obj().(*types.Func)
+	if !ok || fn.Pkg() != t.p.pkg {
+		return nil, nil
+	}
+	var fd *ast.FuncDecl
+	for _, f := range t.p.files {
+		for _, d := range f.Decls {
+			if g, ok := d.(*ast.FuncDecl); ok && t.p.info.Defs[g.Name] == fn {
+				fd = g
+			}
+		}
+	}
+	if fd == nil || fd.Body == nil || len(fd.Body.List) != 1 || fd.Recv == nil || len(fd.Recv.List) != 1 || len(fd.Recv.List[0].Names) != 1 {
+		return nil, nil
+	}
+	ret, ok := fd.Body.List[0].(*ast.ReturnStmt)
+	if !ok || len(ret.Results) != 1 {
+		return nil, nil
+	}
+	// the receiver expression at the call site must be a variable or a field path
+	var at pathT
+	switch r := sel.X.(type) {
+	case *ast.Ident:
+		obj, ok := t.p.info.Uses[r].(*types.Var)
+		if !ok {
+			return nil, nil
+		}
+		at = pathT{obj, nil}
+		if sub, ok := t.subst[obj]; ok {
+			at = sub
+		}
+	case *ast.SelectorExpr:
+		pt, ok := t.path(r)
+		if !ok {
+			return nil, nil
+		}
+		at = pt
+	default:
+		return nil, nil
+	}
+	if t.depth > 8 {
+		bail("inlining too deep at %s", t.p.src(x))
+	}
+	robj := t.p.info.Defs[fd.Recv.List[0].Names[0]]
+	old, had := t.subst[robj]
+	t.subst[robj] = at
+	t.depth++
+	return ret.Results[0], func() {
+		t.depth--
+		if had {
+			t.subst[robj] = old
+		} else {
+			delete(t.subst, robj)
+		}
 	}
 }
 
 func (t *fnTr) cond(e ast.Expr) string {
-	if b, ok := t.typeOf(e).Underlying().(*types.Basic); ok && b.Info()&types.IsBoolean != 0 {
-		if x, ok := e.(*ast.SelectorExpr); ok {
-			if name, ok := t.path(x); ok {
-				t.param(name, "Bool")
+	if isBool(t.typeOf(e)) {
+		switch x := e.(type) {
+		case *ast.SelectorExpr:
+			if name, ok := t.fieldParam(x); ok {
 				return "(" + name + " = true)"
 			}
-		}
-		if x, ok := e.(*ast.Ident); ok && t.free {
-			if _, ok := t.p.info.Uses[x].(*types.Var); ok {
-				t.param(leanIdent(x.Name), "Bool")
-				return "(" + leanIdent(x.Name) + " = true)"
+		case *ast.Ident:
+			if obj, ok := t.p.info.Uses[x].(*types.Var); ok {
+				if def, inl := t.inline[obj]; inl {
+					if s, ok := t.tryInline(def, true); ok {
+						return s
+					}
+					delete(t.inline, obj)
+				}
+				if s, ok := t.variable(x, true); ok {
+					return "(" + s + " = true)"
+				}
+			}
+		case *ast.CallExpr:
+			if body, done := t.enterMethod(x); body != nil {
+				defer done()
+				return t.cond(body)
 			}
 		}
 	}
@@ -384,6 +588,28 @@ func (t *fnTr) block(stmts []ast.Stmt, ind string) string {
 	return ""
 }
 
+func (t *fnTr) namedBinders() string {
+	var names []string
+	for n := range t.named {
+		names = append(names, n)
+	}
+	sort.Strings(names)
+	var out []string
+	for _, n := range names {
+		out = append(out, fmt.Sprintf("(%s : %s)", n, t.named[n]))
+	}
+	return strings.Join(out, " ")
+}
+
+func newTr(p *pkgInfo, fd *ast.FuncDecl, known map[string]bool, guard bool) *fnTr {
+	t := &fnTr{p: p, fd: fd, guard: guard, named: map[string]string{}, owner: map[string]types.Object{}, known: known,
+		inline: map[types.Object]ast.Expr{}, subst: map[types.Object]pathT{}}
+	if fd.Recv != nil && len(fd.Recv.List) == 1 && len(fd.Recv.List[0].Names) == 1 {
+		t.recvObj = p.info.Defs[fd.Recv.List[0].Names[0]]
+	}
+	return t
+}
+
 func (p *pkgInfo) translateFn(f pureFn, known map[string]bool) (def string, err string) {
 	defer func() {
 		if e := recover(); e != nil {
@@ -398,10 +624,7 @@ func (p *pkgInfo) translateFn(f pureFn, known map[string]bool) (def string, err 
 	if fd == nil || fd.Body == nil {
 		return "", "not found"
 	}
-	t := &fnTr{p: p, seen: map[string]bool{}, known: known, bound: map[string]bool{}}
-	if fd.Recv != nil && len(fd.Recv.List) == 1 && len(fd.Recv.List[0].Names) == 1 {
-		t.recv = fd.Recv.List[0].Names[0].Name
-	}
+	t := newTr(p, fd, known, false)
 	var own []string
 	for _, fl := range fd.Type.Params.List {
 		for _, n := range fl.Names {
@@ -414,7 +637,7 @@ func (p *pkgInfo) translateFn(f pureFn, known map[string]bool) (def string, err 
 	}
 	rw, _ := intWidth(p.info.Types[fd.Type.Results.List[0].Type].Type)
 	body := t.block(fd.Body.List, "  ")
-	binders := strings.Join(append(append([]string{}, t.params...), own...), " ")
+	binders := strings.TrimSpace(strings.Join(own, " ") + " " + t.namedBinders())
 	return fmt.Sprintf("/-- `%s` -/\ndef %s %s : BitVec %d :=\n%s\n", p.src(fd.Type), f.name, binders, rw, body), ""
 }
 
@@ -431,6 +654,33 @@ var guards = []guardSpec{
 	{"index", "put", "indexFullGuard", "errFull"},
 }
 
+// pureDefine: `x := e` with one variable, e free of calls other than conversions, len and
+// translated functions (checked when it is translated; here only the statement shape).
+func pureDefine(s ast.Stmt) (*ast.Ident, ast.Expr, bool) {
+	as, ok := s.(*ast.AssignStmt)
+	if !ok || as.Tok != token.DEFINE || len(as.Lhs) != 1 || len(as.Rhs) != 1 {
+		return nil, nil, false
+	}
+	id, ok := as.Lhs[0].(*ast.Ident)
+	if !ok || id.Name == "_" {
+		return nil, nil, false
+	}
+	impure := false
+	ast.Inspect(as.Rhs[0], func(n ast.Node) bool {
+		switch n.(type) {
+		case *ast.FuncLit, *ast.UnaryExpr:
+			if u, ok := n.(*ast.UnaryExpr); ok && (u.Op == token.ARROW || u.Op == token.AND) {
+				impure = true
+			}
+			if _, ok := n.(*ast.FuncLit); ok {
+				impure = true
+			}
+		}
+		return true
+	})
+	return id, as.Rhs[0], !impure
+}
+
 func (p *pkgInfo) translateGuard(g guardSpec, known map[string]bool) (def string, err string) {
 	defer func() {
 		if e := recover(); e != nil {
@@ -445,29 +695,78 @@ func (p *pkgInfo) translateGuard(g guardSpec, known map[string]bool) (def string
 	if fd == nil || fd.Body == nil {
 		return "", "function not found"
 	}
-	var hits []*ast.IfStmt
-	ast.Inspect(fd.Body, func(n ast.Node) bool {
-		if is, ok := n.(*ast.IfStmt); ok && is.Init == nil && strings.Contains(p.src(is.Body), g.anchor) {
-			// innermost match only
-			inner := false
-			ast.Inspect(is.Body, func(m ast.Node) bool {
-				if js, ok := m.(*ast.IfStmt); ok && js.Init == nil && strings.Contains(p.src(js.Body), g.anchor) {
-					inner = true
+	type hit struct {
+		is    *ast.IfStmt
+		block []ast.Stmt
+		idx   int
+	}
+	var hits []hit
+	var walk func(stmts []ast.Stmt)
+	walkStmt := func(s ast.Stmt) {}
+	contains := func(is *ast.IfStmt) bool { return is.Init == nil && strings.Contains(p.src(is.Body), g.anchor) }
+	walk = func(stmts []ast.Stmt) {
+		for i, s := range stmts {
+			if is, ok := s.(*ast.IfStmt); ok && contains(is) {
+				inner := false
+				ast.Inspect(is.Body, func(m ast.Node) bool {
+					if js, ok := m.(*ast.IfStmt); ok && contains(js) {
+						inner = true
+					}
+					return true
+				})
+				if !inner {
+					hits = append(hits, hit{is, stmts, i})
+					continue
+				}
+			}
+			walkStmt(s)
+		}
+	}
+	walkStmt = func(s ast.Stmt) {
+		switch x := s.(type) {
+		case *ast.BlockStmt:
+			walk(x.List)
+		case *ast.IfStmt:
+			walk(x.Body.List)
+			if x.Else != nil {
+				walkStmt(x.Else)
+			}
+		case *ast.ForStmt:
+			walk(x.Body.List)
+		case *ast.RangeStmt:
+			walk(x.Body.List)
+		case *ast.SwitchStmt:
+			walk(x.Body.List)
+		case *ast.CaseClause:
+			walk(x.Body)
+		case *ast.ExprStmt, *ast.AssignStmt, *ast.DeferStmt, *ast.GoStmt, *ast.ReturnStmt:
+			ast.Inspect(x, func(n ast.Node) bool {
+				if fl, ok := n.(*ast.FuncLit); ok {
+					walk(fl.Body.List)
+					return false
 				}
 				return true
 			})
-			if !inner {
-				hits = append(hits, is)
-			}
 		}
-		return true
-	})
+	}
+	walk(fd.Body.List)
 	if len(hits) != 1 {
 		return "", fmt.Sprintf("%d if statements whose body contains %q", len(hits), g.anchor)
 	}
-	t := &fnTr{p: p, seen: map[string]bool{}, known: known, free: true, bound: map[string]bool{}}
-	c := t.cond(hits[0].Cond)
-	return fmt.Sprintf("/-- `%s.%s`: `if %s` -/\ndef %s %s : Bool :=\n  decide %s\n", g.recv, g.fn, p.src(hits[0].Cond), g.name, strings.Join(t.params, " "), c), ""
+	h := hits[0]
+	t := newTr(p, fd, known, true)
+	// inline the run of pure definitions directly in front of the if statement
+	for i := h.idx - 1; i >= 0; i-- {
+		id, rhs, ok := pureDefine(h.block[i])
+		if !ok {
+			break
+		}
+		if obj := p.info.Defs[id]; obj != nil {
+			t.inline[obj] = rhs
+		}
+	}
+	c := t.cond(h.is.Cond)
+	return fmt.Sprintf("/-- `%s.%s`: `if %s` -/\ndef %s %s : Bool :=\n  decide %s\n", g.recv, g.fn, p.src(h.is.Cond), g.name, t.namedBinders(), c), ""
 }
 
 func genFuncs(root *pkgInfo) {
